@@ -14,7 +14,7 @@ static const long NBFLEE[] = { -1, 0, 5, 1L << 40 };
 #define NEXPL 5
 #define NNBFL 4
 #define NSTRV 4
-static const char *STRV[] = { NULL, "a", "b", "urn:iss\xc3\xa9r/long value" };
+static const char *STRV[] = { NULL, "a", "", "urn:iss\xc3\xa9r/long value" };   /* the empty string is an expectation like any other */
 static const char *CNAME[] = { "iss", "sub", "aud" };
 static const jwt_claims_t CTYPE[] = { JWT_CLAIM_ISS, JWT_CLAIM_SUB, JWT_CLAIM_AUD };
 
@@ -253,7 +253,10 @@ static int sshape_text(int shape, const char *expect, char *out, size_t n)
 	char tmp[64];
 	if (s->kind == SK_ABSENT)
 		return 0;
-	if (!strcmp(s->label, "case")) {
+	if (!*expect && (!strcmp(s->label, "case") || !strcmp(s->label, "prefix") || !strcmp(s->label, "doubled"))) {
+		/* the empty expectation has no other spelling, no proper prefix and is its own double: the nearest other strings stand in */
+		snprintf(out, n, "\"%s\"", !strcmp(s->label, "case") ? "A" : !strcmp(s->label, "prefix") ? " " : "aa");
+	} else if (!strcmp(s->label, "case")) {
 		snprintf(tmp, sizeof tmp, "%s", expect);
 		tmp[0] -= 32;
 		snprintf(out, n, s->fmt, tmp);
